@@ -53,3 +53,12 @@ claim("C17", PBT + ": exact expected group structure, COO-matrix invariants, pad
 claim("C18", PBT + ": textbook LCS as reference + validity predicate on the matching",
   "Generated pairs of word sequences with repeats and case variants x ignore_case; matching must be strictly increasing, consist of equal words and have LCS length; edited_words are the complements.",
   "ASCII whitespace separators; case-insensitive equality = to_lowercase equality.")
+claim("C05", PBT + " over generated thread schedules: serialising schedule controller (hook points), sequential-map oracle after every step; random choice vectors, PCT, bounded-preemption enumeration, real threads with chaos controller",
+  "The harness owns the schedule: workers park at the hook points and run one at a time, the schedule is a generated value (replayable, shrinkable). Oracle: received prefix == sequential map, exactly-once counters, end of stream, all workers exit, no deadlock. Thorough tier additionally enumerates every schedule with <= 2 preemptions for small (T, n).",
+  "Granularity = the hook points, sequential consistency; std mpsc/Mutex/SeqCst atomics trusted. Needs hooks H1/H2.")
+claim("C08", PBT + ": differential/metamorphic relations between ~10 runs of the real TrainLoader per generated configuration",
+  "Generated files x pipeline grammar x (seed, epoch, skip, limit, world, rank, fast-forward, threads, buffer, batching) with a chaos controller on the schedule points: identical batches across thread counts / buffers / fresh loaders, multiset invariance under batching, rank disjointness and union, fast-forward suffix, skip/limit split, one fingerprint per item marker.",
+  "Real OS threads are perturbed, not enumerated (C05 covers controlled Pipe schedules); rank/fast-forward relations asserted for files without malformed lines; needs hook H3.")
+claim("C09", PBT + " with fault injection: controlled schedules (drop points), policing upstream iterator with real threads, child processes with an injected panic",
+  "Generated drop points x thread counts x buffer sizes x upstream lengths (incl. 10^6) x schedules: lookahead and post-drop pulls stay within a constant, every worker reaches its exit; a panicking worker function must terminate the child process.",
+  "Bounds 4T+4 / 2*buffer+4 (looser than the code's tight values); thread exit waits rely on the watchdog; child alive after 30 s twice = blocked forever.")
